@@ -229,3 +229,46 @@ pub fn remove_zst(is_row: bool, c: usize, r: usize) {
     assert!(zlive() == 0, "ORACLE: zero-sized elements not dropped exactly once");
     end_reached!();
 }
+
+/// Zero-sized elements WITHOUT drop glue (`()`): a different code path may be taken for them
+/// (`needs_drop` / `size_of` fast paths); the shape contract is the same.
+pub fn remove_unit(is_row: bool, c: usize, r: usize) {
+    let mut v: Vec<()> = Vec::new();
+    let mut i = 0;
+    while i < c * r {
+        v.push(());
+        i += 1;
+    }
+    let mut t: TooDee<()> = TooDee::from_vec(c, r, v);
+    let dim = if is_row { r } else { c };
+    let line = if is_row { c } else { r };
+    let idx = nd::below(dim);
+    let take = nd::upto(line);
+    if is_row {
+        let mut d = t.remove_row(idx);
+        assert!(d.len() == line, "ORACLE: drain len() (unit elements)");
+        let mut k = 0;
+        while k < take {
+            assert!(d.next().is_some(), "ORACLE: drain ended early (unit elements)");
+            k += 1;
+        }
+        assert!(d.len() == line - take, "ORACLE: drain len() after taking (unit elements)");
+    } else {
+        let mut d = t.remove_col(idx);
+        assert!(d.len() == line, "ORACLE: drain len() (unit elements)");
+        let mut k = 0;
+        while k < take {
+            assert!(d.next().is_some(), "ORACLE: drain ended early (unit elements)");
+            k += 1;
+        }
+        assert!(d.len() == line - take, "ORACLE: drain len() after taking (unit elements)");
+    }
+    inv(&t);
+    let (nc, nr) = if is_row { (c, r - 1) } else { (c - 1, r) };
+    let want = if nc == 0 || nr == 0 { (0, 0) } else { (nc, nr) };
+    assert!(t.size() == want, "ORACLE: size after remove (unit elements)");
+    // and the array stays usable
+    t.push_row(core::iter::repeat(()).take(want.0));
+    inv(&t);
+    end_reached!();
+}
